@@ -131,6 +131,8 @@ def gen_files(rng, wild=False, prefix=(), outside=None):
                 body = [["Once"]] + body
             files[pstr(p)] = [p, normalise(body)]
     mains = [prefix + m for m in rng.sample(MAINS, rng.randint(2, 4))]
+    if outside is not None and rng.random() < 0.35:
+        mains.append(list(outside) + ["ext", "e.c"])       # a compiled file outside the code-base directory
     for m in mains:
         body = []
         if rng.random() < 0.85:
@@ -292,7 +294,7 @@ def project(triples, names):
 
 
 # ---------------------------------------------------------------- the CLIs
-def write_cli_inputs(root, cfg, seed, toml_exclude=None, shuffle=False, rel_root=None):
+def write_cli_inputs(root, cfg, seed, toml_exclude=None, shuffle=False, rel_root=None, toml_name="analysis.toml"):
     """One compilation database per platform and analysis.toml in `root` (the code-base root)."""
     import random
     rng = random.Random(seed)
@@ -335,7 +337,7 @@ def write_cli_inputs(root, cfg, seed, toml_exclude=None, shuffle=False, rel_root
             db.append(ent)
         (root / f"db_{p}.json").write_text(json.dumps(db, indent=1))
         lines += [f"[platform.{p}]", f'commands = "db_{p}.json"', ""]
-    (root / "analysis.toml").write_text("\n".join(lines))
+    (root / toml_name).write_text("\n".join(lines))
 
 
 def _drop_handlers(before):
@@ -355,6 +357,7 @@ def cli_inproc(which, argv, cwd):
     quiet()
     import codebasin.__main__ as cbmain
     import codebasin.tree as cbtree
+    import codebasin.coverage.__main__ as cbcov
     lg = logging.getLogger("codebasin")
     before = list(lg.handlers)
     old_level = lg.level
@@ -372,11 +375,13 @@ def cli_inproc(which, argv, cwd):
     os.close(fd)
     os.chdir(cwd)
     try:
-        sys.argv = ["codebasin" if which == "main" else "codebasin.tree"] + list(argv)
+        sys.argv = [{"main": "codebasin", "tree": "codebasin.tree", "cov": "codebasin.coverage"}[which]] + list(argv)
         with contextlib.redirect_stderr(io.StringIO()):
             try:
                 if which == "main":
                     cbmain.main()
+                elif which == "cov":
+                    cbcov.main()
                 else:
                     cbtree.main()
                 code = 0
@@ -402,7 +407,7 @@ def cli_subproc(which, argv, cwd):
     env = dict(os.environ)
     env["PYTHONPATH"] = str(common.REPO)
     env["PYTHONHASHSEED"] = "0"
-    mod = "codebasin" if which == "main" else "codebasin.tree"
+    mod = {"main": "codebasin", "tree": "codebasin.tree", "cov": "codebasin.coverage"}[which]
     p = subprocess.run([sys.executable, "-W", "ignore", "-m", mod] + list(argv), cwd=cwd, env=env,
                        capture_output=True, text=True, timeout=120)
     try:
@@ -480,3 +485,57 @@ def tree_prediction(triples, files, member, names, strip=0):
         cov = "nan" if total == 0 else f"{(used / total) * 100.0:.2f}"
         rows[pstr(p[strip:])] = [sorted(plats), total, cov]
     return rows
+
+
+# ---------------------------------------------------------------- exclude patterns (C10)
+def render_pat(pt):
+    k = pt[0]
+    if k == "Exact":
+        r = pt[1]
+        return ("/" if (len(pt) > 2 and pt[2]) or len(r) == 1 else "") + "/".join(r)
+    if k == "Dir":
+        return pt[1] + "/"
+    if k == "Ext":
+        return "*." + pt[1]
+    if k == "Base":
+        return pt[1]
+    raise ValueError(pt)
+
+
+def pat_matches(pt, rel):
+    """Independent Python reading of the four gitignore shapes used (no negation)."""
+    k = pt[0]
+    if k == "Exact":
+        return rel[:len(pt[1])] == pt[1]
+    if k == "Dir":
+        return pt[1] in rel[:-1]
+    if k == "Ext":
+        return rel[-1].endswith("." + pt[1])
+    if k == "Base":
+        return pt[1] in rel
+    raise ValueError(pt)
+
+
+def member_py(root_prefix, pats):
+    root_prefix = list(root_prefix)
+
+    def m(p):
+        if p[:len(root_prefix)] != root_prefix or len(p) <= len(root_prefix):
+            return False
+        rel = p[len(root_prefix):]
+        return not any(pat_matches(pt, rel) for pt in pats)
+    return m
+
+
+def coverage_prediction(triples, files, member, name, strip=0):
+    used = {(f, i) for n, f, i in triples if n == name}
+    shapes = node_lines_of(files)
+    rows = []
+    for p, ls in files:
+        if not member(p):
+            continue
+        u, un = [], []
+        for i, nl in enumerate(shapes[pstr(p)]):
+            (u if (pstr(p), i) in used else un).extend(nl)
+        rows.append([pstr(p[strip:]), sorted(u), sorted(un)])
+    return sorted(rows)
